@@ -139,6 +139,29 @@ Definition step_op (op : list tok) : list tok :=
                     flat_map (fun fr => if f_end fr then [TS "E"] else [TN (Z.of_nat (List.length (f_payload fr)))]) (fst r)) rs
         ++ [TS "L"] ++ flat_map (fun b => match b with BChunk d => [TN (Z.of_nat (List.length d))] | BEnd => [TS "E"] end) final
       | _ => [TS "badop"] end
+    else if name =? "h2convt" then
+      (* h2convt <max> <seed> <nfields> W <w>.. C <n>.. : a chunked HTTP/1.1 response with <nfields> trailer fields
+         through the converter: "R <window after> [H] <payload len>.. [T|E]" per round (H: the response HEADERS, in
+         the first round; T: HEADERS with the trailers and END_STREAM; E: empty DATA with END_STREAM), then "L <left>.." *)
+      match args with
+      | TN mx :: _ :: TN nf :: rest =>
+        let ws := zs_between rest "W" in
+        let cs := map (fun z => repeat 0%N (Z.to_nat z)) (zs_between rest "C") in
+        let blocks := map BChunk cs ++ [BEnd] in
+        let total := fold_left (fun a c => Nat.add a (List.length c)) cs O in
+        let '(rs, final) := h2_rounds (S (Nat.add total (Nat.add (List.length cs) 3))) (Z.to_nat mx) ws blocks in
+        let round_toks (first : bool) (r : list dframe * Z) :=
+            [TS "R"; TN (snd r)] ++ (if first then [TS "H"] else []) ++
+            flat_map (fun o => match o with
+                               | OTrailers _ => [TS "T"]
+                               | OData p e => if e then [TS "E"] else [TN (Z.of_nat (List.length p))]
+                               end) (h2_out_with_trailers (Z.to_nat nf) (fst r)) in
+        match rs with
+        | [] => []
+        | r :: rest' => round_toks true r ++ flat_map (round_toks false) rest'
+        end
+        ++ [TS "L"] ++ flat_map (fun b => match b with BChunk d => [TN (Z.of_nat (List.length d))] | BEnd => [TS "E"] end) final
+      | _ => [TS "badop"] end
     else [TS "badop"]
   | _ => [TS "badop"]
   end.
